@@ -1,7 +1,7 @@
 //! C02 — equality and ordering are those of the numeric values.
 use bigdecimal::BigDecimal;
 use num_bigint::{BigInt, BigUint};
-use num_traits::{One, Zero};
+use num_traits::{One, Signed, Zero};
 use props::alpha::*;
 use props::conv::*;
 use props::engine::*;
@@ -385,6 +385,79 @@ fn main() {
             }
         }
         run.sample(|| json!({"a": "2705032704e-9", "b": "7e0"}));
+        t
+    });
+    // ---- S7: tightness of the bit-length pre-test ----------------------------------------------------
+    // the scaled comparison first compares bits(a) with bits(b) + floor(g*log2 10); that estimate is tight
+    // exactly when b is a power of two and a = b*10^g: every gap up to a bound, then the gaps up to 100000
+    // at which 10^g lies closest below / above a power of two (the best rational approximations of log2 10)
+    let gall: u64 = tier.pick(2500, 12000);
+    let gfar: u64 = tier.pick(100_000, 330_000);
+    let ktight: usize = tier.pick(5, 16);
+    let mut tight: Vec<(u64, u64)> = vec![]; // (top 64 bits of 10^g, g)
+    {
+        // 192-bit truncated mantissa of 10^g (domain selection only; verdicts use exact integers)
+        let mut m = BigUint::one() << 191usize;
+        for g in 1..=gfar {
+            m = m * 10u32;
+            let extra = m.bits() - 192;
+            m >>= extra;
+            if g > gall {
+                let top: u64 = (&m >> 128usize).to_string().parse().unwrap();
+                tight.push((top, g));
+            }
+        }
+    }
+    tight.sort();
+    let mut s7: Vec<u64> = (1..=gall).collect();
+    s7.extend(tight.iter().take(ktight).map(|x| x.1));
+    s7.extend(tight.iter().rev().take(ktight).map(|x| x.1));
+    run.bound("S7_gaps", format!("1..={} and the {} gaps up to {} with 10^g closest above / below a power of two: {:?}", gall, ktight, gfar, &s7[gall as usize..]));
+    run.par_opts("S7 bit-length estimate", s7.len(), 120, &|i| json!({"gap": s7[i]}), |i| {
+        let g = s7[i];
+        let far = g > gall;
+        let p = pow10(g);
+        let mut t = Tally::default();
+        let ks: &[usize] = if far { &[0, 10] } else { &[0, 1, 10, 32, 64] };
+        for &k in ks {
+            for db in [0i64, 1, -1] {
+                let b = (BigInt::one() << k) + db;
+                if !b.is_positive() {
+                    continue;
+                }
+                for d in [0i64, -1, 1] {
+                    if far && db != 0 && d != 0 {
+                        continue;
+                    }
+                    let a = &b * &p + d;
+                    for neg in [false, true] {
+                        if far && neg {
+                            continue;
+                        }
+                        let sg = if neg { -1 } else { 1 };
+                        let x = Dec { n: &a * sg, s: g as i128 };
+                        let y = Dec { n: &b * sg, s: 0 };
+                        t.nontrivial += 2;
+                        if far {
+                            // one comparison costs milliseconds here: the order, equality and one inequality
+                            let (xa, xb) = (bd(&x), bd(&y));
+                            let want = cmp_val(&x.n, x.s, &y.n, y.s);
+                            t.states += 2;
+                            t.transitions += 6;
+                            let got = guard(|| (xa.cmp(&xb), xa == xb, xa < xb, xb.cmp(&xa), xb == xa, xb < xa));
+                            let exp = (want, want == Ordering::Equal, want == Ordering::Less, want.reverse(), want == Ordering::Equal, want == Ordering::Greater);
+                            match got {
+                                Ok(o) if o == exp => {}
+                                Ok(o) => run.report(Violation::new("cmp/==/< at a tight gap", "wrong_value", case_json(&x, &y), format!("{:?}", exp), format!("{:?}", o))),
+                                Err(e) => run.report(Violation::new("cmp/==/< at a tight gap", "panic", case_json(&x, &y), "no panic", e)),
+                            }
+                        } else {
+                            full_check(&run, &x, &y, &mut t);
+                        }
+                    }
+                }
+            }
+        }
         t
     });
     run.finish();
